@@ -273,10 +273,45 @@ func isErrorReturn(ret *ssa.Return) bool {
 	return false
 }
 
+// nothingToDoFastPath: every branch the step now depends on tests whether one of the step's own arguments (or its
+// receiver) is empty or nil — "if len(xs) == 0 { return }" in front of "process(xs)".
+func nothingToDoFastPath(fn *ssa.Function, members []ssa.Instruction) bool {
+	if len(members) != 1 {
+		return false
+	}
+	ci, ok := members[0].(ssa.CallInstruction)
+	if !ok {
+		return false
+	}
+	atoms, ok := controllingAtoms(fn, members[0].Block())
+	if !ok || len(atoms) == 0 {
+		return false
+	}
+	var args []string
+	for _, a := range ci.Common().Args {
+		args = append(args, describeVal(a, 0))
+	}
+	if ci.Common().IsInvoke() {
+		args = append(args, describeVal(ci.Common().Value, 0))
+	}
+	for a := range atoms {
+		okAtom := false
+		for _, d := range args {
+			if a == "0 =?= len("+d+")" || a == d+" =?= nil" || a == "nil =?= "+d || a == "0 <? len("+d+")" {
+				okAtom = true
+			}
+		}
+		if !okAtom {
+			return false
+		}
+	}
+	return true
+}
+
 // ruleAlwaysRatchet: a step that ran on every path still does.
 func (c *Ctx) ruleAlwaysRatchet(rule string, pkgs []string, fileFilter func(file string) bool, baselineFile string, min int) {
 	r := c.R
-	r.Rule(rule, "bypass ratchet: the committed baseline records, per function, the calls and field stores (classes as in the order ratchet) that run on every path from the entry to a return that does not hand back a freshly made error. If each of those steps is still in the function and one of them can now be bypassed — a new early return or branch around a cancel, a wait, a drain, a reset — the reviewed behaviour 'this always happens' is gone", min)
+	r.Rule(rule, "bypass ratchet: the committed baseline records, per function, the calls and field stores (classes as in the order ratchet) that run on every path from the entry to a return that does not hand back a freshly made error. If each of those steps is still in the function and one of them can now be bypassed (other than by a fast path that only tests whether the step's own argument is empty) — a new early return or branch around a cancel, a wait, a drain, a reset — the reviewed behaviour 'this always happens' is gone", min)
 	var base []callSig
 	b, err := os.ReadFile(filepath.Join(homeDir(), baselineFile))
 	if err != nil || json.Unmarshal(b, &base) != nil {
@@ -315,6 +350,9 @@ func (c *Ctx) ruleAlwaysRatchet(rule string, pkgs []string, fileFilter func(file
 		lost := ""
 		for _, k := range bs.Always {
 			if !runsOnEveryPath(fn, uc[k]) {
+				if nothingToDoFastPath(fn, uc[k]) {
+					continue // skipped only when what it works on is empty: a fast path, not a bypass
+				}
 				name := k
 				if j := strings.LastIndex(k, "~"); j > 0 {
 					name = k[:j]
@@ -629,6 +667,36 @@ func directCalleeCounts(c *Ctx, fn *ssa.Function, out map[string]bool, counts ma
 				}
 				if cal := ci.Common().StaticCallee(); cal != nil && cal.Parent() == nil && cal.Blocks != nil && c.P.InModule(cal) && mods != nil {
 					mods[cal] = true
+				}
+				// a method or function handed over as a value (slices.ContainsFunc(xs, h.HasRouteTarget)) is a use of it too
+				for _, a := range ci.Common().Args {
+					if _, isSig := a.Type().Underlying().(*types.Signature); !isSig {
+						continue
+					}
+					fv := funcValue(a)
+					if fv == nil || fv.Parent() != nil || !c.P.InModule(fv) {
+						continue
+					}
+					k := stripTypeArgs(ir.FuncKey(fv))
+					if mc, ok := a.(*ssa.MakeClosure); ok && len(mc.Bindings) == 1 {
+						recv := mc.Bindings[0]
+						if u, ok := recv.(*ssa.UnOp); ok {
+							recv = u.X
+						}
+						if fa, ok := recv.(*ssa.FieldAddr); ok {
+							k += "@" + fieldVarOf(fa).Name()
+						}
+					}
+					if trivialCalleeNames[fv.Name()] {
+						continue
+					}
+					if out != nil {
+						out[k] = true
+					}
+					bump(k, describeVal(a, 0))
+					if mods != nil && fv.Blocks != nil {
+						mods[fv] = true
+					}
 				}
 			}
 		}
